@@ -253,6 +253,58 @@ class Module:
         return L
 
 
+def check_param_reader(ctx, n):
+    """read_parameter_value (the balanced scan behind PARAMETER values in hover) against C11.Param.read_parameter_value"""
+    try:
+        from fortls.parsers.internal.parser import read_parameter_value
+    except ImportError:
+        ctx.report("C11:param-reader-missing", "fortls.parsers.internal.parser.read_parameter_value is gone",
+                   {"kind": "broken-correspondence", "correspondence": "FV.C11.Param.read_parameter_value vs parser.read_parameter_value"}, found_input=False)
+        return
+    coq = ctx.coq("From FV Require Import Base.Str C11.Param.\n"
+                  "Definition ostr_eqb (a b : option str) : bool := match a, b with None, None => true | Some x, Some y => str_eqb x y | _, _ => false end.\n")
+    r = ctx.rng
+
+    def value(depth=0):
+        parts = []
+        for _ in range(r.choice([1, 1, 2, 3])):
+            k = r.choice(["num", "name", "op", "call", "lit", "arr", "blank", "amp"] if depth < 3 else ["num", "name", "op"])
+            if k == "num":
+                parts.append(r.choice(["1", "42", "2.5e0", "1_8"]))
+            elif k == "name":
+                parts.append(r.choice(["n", "wp", "huge", "x_1"]))
+            elif k == "op":
+                parts.append(r.choice(["+", "*", "-", "/", "**", " // ", "==", ".and."]))
+            elif k == "call":
+                parts.append(r.choice(["max", "kind", "f", ""]) + "(" + ", ".join(value(depth + 1) for _ in range(r.choice([0, 1, 2]))) + ")")
+            elif k == "lit":
+                parts.append(r.choice(['"a, (b"', "'x!y'", '"it\'s"', "'say \"hi\"'", "''", '"]"']))
+            elif k == "arr":
+                parts.append(r.choice(["[%s]", "(/ %s /)"]) % ", ".join(value(depth + 1) for _ in range(r.choice([1, 2, 3]))))
+            elif k == "blank":
+                parts.append(r.choice([" ", "  ", "\t"]))
+            else:
+                parts.append(" & ")
+        return "".join(parts)
+    exprs, meta = [], []
+    for _ in range(n):
+        head = r.choice(["", " ", "  ", "(3)", "(2, n) ", "(:)", "*3", "*(*) ", " * 10 ", "(2)*4 "])
+        eq = r.choice([" = ", "=", " =", "= ", " => ", "", " == "])
+        tail = r.choice(["", ", other = 2", ", b(2) = [1, 2]", " ! note, with (parens", ",", ")", " ]"])
+        text = head + eq + value() + tail
+        if r.random() < 0.15:       # malformed: brackets or literals left open
+            text = text.replace(")", "", 1) if r.random() < 0.5 else text + r.choice(['"open', "(", "'"])
+        got = read_parameter_value(text)
+        ctx.count(("param-reader", text), got is not None)
+        exprs.append("ostr_eqb (read_parameter_value %s) %s" % (cstr(text), "None" if got is None else "(Some %s)" % cstr(got)))
+        meta.append({"text": text, "implementation": got})
+    bad = coq.bools(exprs, shard=400)
+    ctx.cov["traces_validated_against_impl"] += len(exprs)
+    for b in bad[:3]:
+        ctx.report("C11:param-reader-mismatch", "read_parameter_value differs from C11.Param.read_parameter_value", {"kind": "broken-correspondence", "input": meta[b],
+                   "correspondence": "FV.C11.Param.read_parameter_value vs parser.read_parameter_value"}, found_input=False)
+
+
 def check_directed(ctx):
     """hand-written cases outside the generator's reach: documentation comments of a fixed-form file (flags C, c, *, d), and
     signature help through `%` on a binding with a passed-object dummy argument"""
@@ -484,6 +536,7 @@ def run(ctx):
     check_doc_machine(ctx, 40 if q else 800)
     check_oracle(ctx, 25 if q else 500)
     check_directed(ctx)
+    check_param_reader(ctx, 300 if q else 6000)
 
 
 def replay(ctx, path):
